@@ -11,6 +11,7 @@ def parseAct (b : Bytes) : Option Act :=
   | [115] => some .stall
   | [103] => some .garbage
   | [116] => some .tlsBad
+  | [102] => some .deaf
   | 114 :: a :: b' :: c :: 32 :: text =>
     if isDigit a && isDigit b' && isDigit c then
       some (.reply ((a.toNat - 48) * 100 + (b'.toNat - 48) * 10 + (c.toNat - 48)) text)
@@ -59,30 +60,31 @@ def msgOutStr (o : MsgOut) : String :=
 
 partial def parseMsgs : List String → Option (List MsgIn)
   | [] => some []
-  | "m" :: eb :: sender :: rcpts :: rok :: rest =>
-    match decNat eb, decList sender, decList rcpts, decNat rok, parseMsgs rest with
-    | some e, some s, some r, some k, some ms =>
-      some ({ eightBit := e != 0, sender := s.head?, rcpts := r, renderOK := k != 0 } :: ms)
-    | _, _, _, _, _ => none
+  | "m" :: eb :: sender :: rcpts :: rok :: big :: rest =>
+    match decNat eb, decList sender, decList rcpts, decNat rok, decNat big, parseMsgs rest with
+    | some e, some s, some r, some k, some bg, some ms =>
+      some ({ eightBit := e != 0, sender := s.head?, rcpts := r, renderOK := k != 0, big := bg != 0 } :: ms)
+    | _, _, _, _, _, _ => none
   | _ => none
 
-/-- smtp dialsend <caps> <script> <helo> #noNoop #requestDSN <dsnReturn> <dsnNotify> m ... -/
+/-- smtp dialsend <caps> <script> <helo> #noNoop #requestDSN <dsnReturn> <dsnNotify> #policy m ... -/
 def handle (toks : List String) : String :=
   match toks with
-  | "dialsend" :: caps :: script :: helo :: nn :: rd :: dr :: dn :: msgs =>
-    match decList caps, decList script, decBytes helo, decNat nn, decNat rd, decBytes dr, decBytes dn, parseMsgs msgs with
-    | some caps, some sc, some helo, some nn, some rd, some dr, some dn, some ms =>
+  | "dialsend" :: caps :: script :: helo :: nn :: rd :: dr :: dn :: pol :: msgs =>
+    match decList caps, decList script, decBytes helo, decNat nn, decNat rd, decBytes dr, decBytes dn, decNat pol, parseMsgs msgs with
+    | some caps, some sc, some helo, some nn, some rd, some dr, some dn, some pol, some ms =>
       match sc.mapM parseAct with
       | none => "bad-script"
       | some acts =>
-        let cfg : DialCfg := { helo := helo, send := { noNoop := nn != 0, requestDSN := rd != 0, dsnReturn := dr, dsnNotify := dn } }
+        let policy : TLSPolicy := if pol == 0 then .mandatory else if pol == 1 then .opportunistic else .noTLS
+        let cfg : DialCfg := { helo := helo, policy := policy, send := { noNoop := nn != 0, requestDSN := rd != 0, dsnReturn := dr, dsnNotify := dn } }
         let o := dialAndSend cfg acts caps ms
         let tr := encList (o.conn.trace.filterMap evBytes)
         let res := " ".intercalate (o.msgs.map msgOutStr)
         tr ++ " dial=" ++ errTag o.dialErr ++ " senderr=" ++ encBool o.sendErr ++
           " check=" ++ (match o.checkErr with | none => "-" | some e => sendErrStr e) ++
           " close=" ++ errTag o.closeErr ++ " open=" ++ encBool o.conn.cliOpen ++ " | " ++ res
-    | _, _, _, _, _, _, _, _ => "bad-arg"
+    | _, _, _, _, _, _, _, _, _ => "bad-arg"
   | "dial" :: caps :: script :: helo :: host :: policy :: implicit :: usessl :: atype :: user :: pass :: debug :: logauth ::
       suser :: spass :: cnonce :: tls13 :: cbs :: crypto :: hmacs :: thenReset :: [] =>
     match decList caps, decList script, decBytes helo, decBytes host, decNat policy, decNat implicit, decNat usessl,
